@@ -3,6 +3,21 @@ import json, os
 VERIF = os.path.dirname(os.path.dirname(os.path.abspath(__file__)))
 
 CHECKS = {
+    "C03": dict(
+        category="model_checking",
+        text="Daemon.tla models the request protocol of the daemon's fine-grained increments (changed-module processing reachable from the roots, "
+             "blocker carry-over, joining / deleting modules, what the import-following walk treats as an import) and FsWatcher.tla transcribes "
+             "FileSystemWatcher exactly; TLC checks RespondsLikeFresh / GraphIsBuild and Exact, rejects the mutants (follow indirect "
+             "dependencies; coarse clock) and emits behaviours. Every Daemon behaviour is replayed on a real in-process dmypy Server (a request "
+             "after every edit): each response is compared with a fresh non-incremental build (the property) and with the model's response "
+             "(binding: zero drift on the unchanged tree); FsWatcher behaviours are replayed on the real watcher. On top, edit histories over the "
+             "48-world catalogue D (2-step exhaustive in thorough + a fixed set of 3-4 step histories, with and without import following, with "
+             "recheck) are replayed, failures delta-minimised to canonical 1-minimal histories.",
+        design_ref="DESIGN.md 5.C03, 10",
+        note="catalogue of three modules (re-export / inferred / internal use, import removed, file absent, syntax error); in-process "
+             "Server.check / cmd_recheck with test fixtures; known findings: the blocker-recovery family (38 minimal histories, findings.d/C03.json)",
+        technique="TLA+ specs (Daemon.tla, FsWatcher.tla) model-checked with TLC; TLC behaviours and enumerated edit histories replayed on a real dmypy Server against a fresh-build oracle",
+    ),
     "C07": dict(
         category="model_checking",
         text="Parallel.tla models the coordinator (find_stale_sccs rounds, arbitrary free-worker choice, arbitrary batching, one reply consumed at a "
